@@ -141,7 +141,7 @@ Fixpoint grow_loop (fuel : nat) (n newCap : Z) : Z :=
   | S f => if (0 <? n) && (n <? newCap) then grow_loop f (n + n / 4) newCap else n
   end.
 (* newCap <= 2n and n >= 4096 at the only call, so the loop body runs at most
-   4 times (proved in RingProofs.grow_loop_spec); 8 is ample *)
+   4 times (proved in Proofs/RingOps.v, grow_loop_spec); 8 is ample *)
 Definition grow_fuel : nat := 8.
 
 Definition grow_policy (n newCap : Z) : outcome Z :=
